@@ -181,6 +181,15 @@ func (c *Ctx) lexStateModel(fd *ast.FuncDecl) *lexStateModel {
 		}
 		return true
 	}
+	// a table keyed by the rune: one path per entry, and the miss
+	h.AssumeKey = func(in *Interp, st *State, key Value, kc constant.Value, eq bool) bool {
+		if k, ok := runeOf(key); ok && kc.Kind() == constant.Int {
+			if cv, isI := constant.Int64Val(kc); isI {
+				return assumeEq(pay(st), k, cv, eq)
+			}
+		}
+		return true
+	}
 	h.CaseMatch = func(in *Interp, st *State, tag Value, caseExpr ast.Expr, taken bool) bool {
 		if k, ok := runeOf(tag); ok {
 			if cv, isC := c.intConst(caseExpr); isC {
